@@ -3,6 +3,11 @@
 import json, os
 V = "/verif"
 CHECKS = {
+ "C14": dict(cat="exploration",
+   text="round-trip oracle over generated datasets (valid http/https/urn/mailto IRIs, blank nodes, quoted triples nested once, arbitrary Unicode literals that cannot be mistaken for another term kind: quotes, backslashes, newlines, controls, U+2028, combining and astral characters, empty string, edge whitespace): generate_nquads -> parse_nquads_and_add (all graphs), generate_ntriples -> parse_ntriples_and_add and generate_turtle -> parse_turtle (default graph) into an empty database must reproduce the lexical quads; failures are attributed to c14.<format>.<class> by isolating round trips; 20 000 datasets quick, 1 M + a libFuzzer campaign of the same oracle (byte-decoded datasets) thorough, saved corpus replayed on the stable build every run",
+   note="trusted: lexical identity of terms as stored by Dictionary::encode / rendered by decode_any; term kinds share one lexical space (an IRI exported as a string literal is indistinguishable after re-import); blank-node labels compared literally; the loader is re-checked on every case",
+   tech="round-trip property-based testing (proptest) + coverage-guided fuzzing (libFuzzer, arbitrary-decoded datasets) with the oracle in the target"),
+
  "C16": dict(cat="exploration",
    text="totality: 14 public parsers per input under catch_unwind, acceptance must consume the whole input for the three whole-request parsers; inputs = exhaustive sweep of every char offset of a 166-request corpus (from the repo's tests/examples) x {6 multi-byte insertions, delete, duplicate token, truncate}, token-level mutations of generated queries, deep nesting ({ / << / ( x 10^2..10^5) in a child process on a 2 MiB-stack thread, and (thorough) a 5 M-execution libFuzzer campaign with the same oracle in the target; faithfulness: generated SELECT/update syntax trees printed twice with independent layout choices (whitespace, # comments, keyword case, ?x/$x, optional WHERE, ./;/, abbreviations, quote forms, prefixed names) and the parsed AST compared structurally with the tree and between the two printings",
    note="trusted: documented AST normal form of shared::query with the merge-adjacent-BGP / one-member-group normalisation on both sides; harness tokeniser for raw operand slices; stack exhaustion observed as death of a child whose parser thread has a 2 MiB stack; layout restricted to what the code and tests accept",
